@@ -869,7 +869,7 @@ def m_string_truncate(I, args, callee):
     lst = s.fields[0].fields
     n = args[1]
     if truthy(I, I.binop('Le', n, usize(len(lst)))):
-        k = I.concretize(n, 'String::truncate len')
+        k = I.concretize(n, 'String::truncate len', limit=400)
         sl = SliceRef(Cell(s.fields[0]), (), 0, len(lst))
         I.oblige(is_boundary_expr(I, sl, k), 'truncate-char-boundary',
                  'String::truncate(%d) is not on a char boundary (panic)' % k)
@@ -998,12 +998,28 @@ def render_value(I, kind, ty, ref, out):
         if v.conc():
             out.extend(_digits(v.sval()))
             return
-        # symbolic integer: fork on the value when it has few candidates, else mark as opaque digits
-        try:
-            val = I.concretize(v, 'formatted integer', limit=16)
-            out.extend(_digits(val))
-        except Unsupported:
-            out.extend(IntV(8, b) for b in b'<int>')
+        # symbolic integer: fork on the NUMBER OF DIGITS (solver-decided); the digits themselves are fresh symbolic bytes
+        if v.s:
+            raise Unsupported('Display of a symbolic signed integer')
+        isint = z3.is_int(v.v)
+        alts = []
+        maxd = 20 if v.w >= 64 else (10 if v.w == 32 else 5)
+        for d in range(1, maxd + 1):
+            lo, hi = (0 if d == 1 else 10 ** (d - 1)), 10 ** d
+            if isint:
+                c = z3.And(v.v >= lo, v.v < hi)
+            else:
+                top = (1 << v.w) - 1
+                if lo > top:
+                    break
+                c = z3.UGE(v.v, lo) if hi > top else z3.And(z3.UGE(v.v, lo), z3.ULT(v.v, hi))
+            alts.append((('digits', d), c))
+        d = I.decide(alts)[1]
+        for k in range(d):
+            b = I.fresh_int('digit%d_%d' % (I.fresh_n, k), 8)
+            I.solver.add(b.v >= 48, b.v <= 57)
+            out.append(b)
+        I.fresh_n += 1
         return
     if isinstance(v, BoolV):
         out.extend(IntV(8, b) for b in (b'true' if v.v is True else b'false' if v.v is False else b'<bool>'))
@@ -1765,6 +1781,36 @@ def m_char_pred(I, args, callee):
     return I._boolv(z3.Or([z3.And(z3.UGE(c.v, a), z3.ULE(c.v, b)) for a, b in rs])) if rs else BoolV(False)
 
 
+def m_iter_repeat(I, args, callee):
+    return Agg('Repeat', [args[0]])
+
+
+def m_repeat_take(I, args, callee):
+    rp, n = args
+    k = I.concretize(n, 'repeat().take(n)', limit=400)
+    return new_iter([deep_copy(rp.fields[0]) for _ in range(k)])
+
+
+def m_string_extend_chars(I, args, callee):
+    s_ = I.deref(args[0])
+    for ch in _items(I, args[1]):
+        m_string_push(I, [Ref(Cell(s_), ()), ch], callee)
+    return UNIT
+
+
+def m_from_utf8_lossy(I, args, callee):
+    """String::from_utf8_lossy on text the harness constrains to valid UTF-8: Cow::Borrowed(text)"""
+    return Agg('Cow', [as_slice(I, args[0])], 'Borrowed')
+
+
+def m_cow_into_owned(I, args, callee):
+    c = args[0]
+    v = c.fields[0]
+    if c.variant == 'Owned':
+        return v
+    return m_to_owned_str(I, [v], callee)
+
+
 def m_slice_windows(I, args, callee):
     sl = as_slice(I, args[0])
     n = I.concretize(args[1], 'windows size')
@@ -1794,6 +1840,11 @@ def m_path_display(I, args, callee):
 
 
 MODELS = [
+    (r'^(std::iter::)?repeat::<', m_iter_repeat),
+    (r'^<(std::iter::)?Repeat<.*> as Iterator>::take$', m_repeat_take),
+    (r'^<String as Extend<char>>::extend::', m_string_extend_chars),
+    (r'^String::from_utf8_lossy$', m_from_utf8_lossy),
+    (r'^Cow::<.*>::into_owned$', m_cow_into_owned),
     (r'^(core::)?char::methods::<impl char>::is_\w+$|^(core::)?num::<impl u8>::is_ascii\w*$', m_char_pred),
     (r' as Iterator>::size_hint$', m_iter_size_hint),
     (r'^<.* as (ExactSizeIterator)>::len$', m_iter_count),
@@ -1808,7 +1859,8 @@ MODELS = [
     (r'^VecDeque::<.*>::front$', m_deque_front),
     (r'^VecDeque::<.*>::push_front$', m_deque_push_front),
     (r'^VecDeque::<.*>::pop_back$', m_deque_pop_back),
-    (r'^VecDeque::<.*>::iter$|^<&VecDeque<.*> as IntoIterator>::into_iter$', m_slice_iter),
+    (r'^VecDeque::<.*>::iter(_mut)?$|^<&(mut )?VecDeque<.*> as IntoIterator>::into_iter$', m_slice_iter),
+    (r'^<std::collections::vec_deque::IterMut<.*> as Iterator>::(next)$', m_slice_iter_next),
     (r'^<std::collections::vec_deque::Iter<.*> as Iterator>::next$', m_slice_iter_next),
     (r'^(core::)?num::<impl [ui](8|16|32|64|size)>::saturating_sub$', m_int_saturating_sub),
     (r'^(core::)?num::<impl [ui](8|16|32|64|size)>::saturating_add$', m_int_saturating_add),
